@@ -206,7 +206,11 @@ func init() {
 				return []Rec{rec}
 			case "notation":
 				s := cs(k, "s")
-				f := c.writeTemp(fmt.Sprintf("n_%x.yml", s), fmt.Sprintf("- name: X\n  degree: %q\n", s))
+				ys := fmt.Sprintf("%q", s)
+				if strings.Trim(s, "0123456789") == "" && len(s) > 0 && len(s)%2 == 0 {
+					ys = s // an unquoted numeral (YAML would call 011 an octal integer; the notation is decimal)
+				}
+				f := c.writeTemp(fmt.Sprintf("n_%x.yml", s), fmt.Sprintf("- name: X\n  degree: %s\n", ys))
 				r := c.crd([]string{"info", "attr", "list", "--attr", f}, nil)
 				os.Remove(f)
 				var attrs []yAttr
